@@ -221,7 +221,19 @@ def resolve(points):
 def prop(m):
     from kyupy import def_file
     text = render(m)
-    obs = compare(m, def_file.parse(text), '')
+    poisoned = (m['ws'] >> 17) % 3 == 0
+    if poisoned:
+        # history: an earlier parse in the same process that is rejected half-way (the text of a sibling design - other name, every number of
+        # UNITS / DIEAREA as rendered - cut off after one to four fifths): nothing of it may show up in what the next text yields
+        sib = render(dict(m, design=('Q' if m['design'][0] != 'Q' else 'R') + m['design'][1:]))
+        cut = len(sib) * (1 + (m['ws'] >> 19) % 4) // 5
+        try:
+            def_file.parse(sib[:cut] + '\n')
+        except Exception:          # rejected; how is not the subject
+            pass
+    obs = compare(m, def_file.parse(text), 'after a rejected parse of a truncated text: ' if poisoned else '')
+    if poisoned:
+        obs.labels = tuple(obs.labels) + ('after_a_rejected_parse',)
     compare(m, def_file.parse(text), 'same text parsed a second time: ')      # extraction is a function of the text alone
     via = (m['ws'] >> 21) % 4
     if via >= 2:
